@@ -146,8 +146,17 @@ struct Shared {
 }
 
 /// `vcheck worker <id> <tier> <start> <end> <skipfile> <outfile>`
+fn limit_memory(gb: u64) {
+    // an exploding case must fail inside its own process, not take the sandbox down
+    unsafe {
+        let lim = libc::rlimit { rlim_cur: gb << 30, rlim_max: gb << 30 };
+        libc::setrlimit(libc::RLIMIT_AS, &lim);
+    }
+}
+
 pub fn worker_main(p: &'static dyn Property, tier: Tier, start: u64, end: u64, skipfile: &str, outfile: &str) -> i32 {
     install_panic_hook();
+    limit_memory(40);
     let seed = seed_from_env();
     let skip: HashSet<u64> = std::fs::read_to_string(skipfile)
         .unwrap_or_default()
@@ -292,6 +301,9 @@ fn run_generated(
         .filter(|f| open_finding(findings, p.id(), &f.signature).is_none())
         .map(|f| f.signature.clone())
         .collect();
+    if !new_fails.is_empty() {
+        res.case = Some(case.clone());
+    }
     for sig in new_fails {
         {
             let mut ns = sh.new_sigs.lock().unwrap();
@@ -306,7 +318,13 @@ fn run_generated(
         res.case = Some(case.clone());
         let mut evals = 0u64;
         let mut best_tape = tape.clone();
+        // wall-clock cap on shrinking (affects only how small the replay file gets)
+        let shrink_t0 = Instant::now();
         let mut test = |tp: &[u32], evals: &mut u64| -> bool {
+            if shrink_t0.elapsed().as_secs() > 90 {
+                *evals += 1_000_000; // exhausts every budget
+                return false;
+            }
             *evals += 1;
             let c = gen_case(p, tp, tier);
             write_inflight(&c);
@@ -414,6 +432,7 @@ fn tape_shrink(
 
 pub fn one_main(p: &'static dyn Property, casefile: &str, outfile: &str) -> i32 {
     install_panic_hook();
+    limit_memory(12);
     let txt = std::fs::read_to_string(casefile).expect("read case file");
     let v: Value = serde_json::from_str(&txt).expect("case file parses");
     let case = if v.get("case").is_some() && (v.get("property").is_some() || v.get("idx").is_some()) {
@@ -706,6 +725,11 @@ pub fn supervise(p: &'static dyn Property, tier: Tier, replay_only: Option<&str>
                         r.idx = idx;
                         append_result(&results_path, &r);
                         skip.insert(idx);
+                    }
+                    Err(e) if e.starts_with("abort:") && e.contains("memory allocation") => {
+                        skip.insert(idx);
+                        found = true;
+                        inconclusive = Some(format!("case idx={idx} exhausted its memory limit: {e}"));
                     }
                     Err(e) if e.starts_with("abort:") => {
                         found = true;
